@@ -476,7 +476,8 @@ def run(rep: Report, prog: Program, tier: str) -> None:
 
     # ---- C18-RRCOUNT: one round of _run_rtcp with many remote streams - an RTCP packet has a 5-bit report count
     rep.rule("C18-RRCOUNT", "a round of _run_rtcp reports every remote stream exactly once in packets of at most 31 report blocks, each of which serialises and parses back", min_instances=4)
-    loops_w = [n for n in ast.walk(run_rtcp.node) if isinstance(n, ast.While)]
+    rr_fn = prog.func("rtcrtpreceiver.RTCRtpReceiver._run_rtcp")       # (run_rtcp above may be the helper that builds the report blocks)
+    loops_w = [n for n in ast.walk(rr_fn.node) if isinstance(n, ast.While)]
     if len(loops_w) != 1:
         raise AnalysisError("_run_rtcp: the reporting loop (while) was not found")
     round_body = [st for st in loops_w[0].body if not (isinstance(st, ast.Expr) and isinstance(st.value, ast.Await) and "sleep" in unparse(st.value))]
@@ -503,12 +504,12 @@ def run(rep: Report, prog: Program, tier: str) -> None:
                 st_ = ohr.instantiate(SSC, [], dict(clockrate=CLOCK), evr)
                 ohr.run_method(sadd, st_, [_NS2(sequence_number=k, timestamp=0)], {})
                 streams[7000 + k] = st_
-            me = _NS2(__cls__=run_rtcp.cls)
+            me = _NS2(__cls__=rr_fn.cls)
             setattr(me, "__remote_streams", streams)
             setattr(me, "__lsr", {})
             setattr(me, "__lsr_time", {})
             setattr(me, "__rtcp_ssrc", 99)
-            evw = _Ev2(prog, run_rtcp.module, run_rtcp.cls, {"self": me}, ohr)
+            evw = _Ev2(prog, rr_fn.module, rr_fn.cls, {"self": me}, ohr)
             evw.exec_block(round_body)
             problems = []
             seen: List[int] = []
@@ -530,11 +531,11 @@ def run(rep: Report, prog: Program, tier: str) -> None:
             if sorted(seen) != sorted(streams):
                 problems.append(f"{len(set(seen))} of {n_streams} streams reported, {len(seen) - len(set(seen))} twice")
             if problems:
-                rep.fail(mk_finding(prog, PROP, "C18-RRCOUNT", run_rtcp, loops_w[0], f"[{label}] " + "; ".join(problems[:2]), construct="report count: " + re_sub_digits(problems[0])[:70]))
+                rep.fail(mk_finding(prog, PROP, "C18-RRCOUNT", rr_fn, loops_w[0], f"[{label}] " + "; ".join(problems[:2]), construct="report count: " + re_sub_digits(problems[0])[:70]))
             else:
                 rep.ok("C18-RRCOUNT", label, sample=f"{len(sent)} packet(s)")
         except _R2 as ex_:
-            rep.fail(mk_finding(prog, PROP, "C18-RRCOUNT", run_rtcp, getattr(ex_, "node", None), f"[{label}] a reporting round raises {ex_.name}: the RTCP task ends", construct=f"report round raises {ex_.name}"))
+            rep.fail(mk_finding(prog, PROP, "C18-RRCOUNT", rr_fn, getattr(ex_, "node", None), f"[{label}] a reporting round raises {ex_.name}: the RTCP task ends", construct=f"report round raises {ex_.name}"))
         except _U2 as ex_:
             raise AnalysisError(f"C18-RRCOUNT cannot evaluate [{label}]: {ex_}")
 
